@@ -234,11 +234,12 @@ def run_crosshair_ob(ob: Ob, workdir: Path, exclude: List[str]) -> Verdict:
     paths, distinct, samples = _read_ticks(tickfile)
     v = Verdict('inconclusive', '', solver_s=round(dt, 2), paths=paths, distinct=distinct, samples=samples)
     msgs = [m.groupdict() for m in map(_MSG.match, out.splitlines()) if m]
-    if rc not in (0, 1) or not msgs:
+    if not msgs or (rc not in (0, 1) and msgs[0]['lvl'] != 'error'):
+        # (a counterexample printed by a process that then died at shutdown is still used: it is replayed before it counts)
         v.detail = f'crosshair rc={rc}; stdout={out[-800:]!r}; stderr={err[-1500:]!r}'
         return v
     m = msgs[0]
-    if m['lvl'] == 'info' and 'Confirmed over all paths' in m['msg']:
+    if m['lvl'] == 'info' and 'Confirmed over all paths' in m['msg'] and rc == 0:
         v.status = 'confirmed'
         v.detail = m['msg']
         return v
@@ -369,6 +370,11 @@ def store_replay(prop: str, ob: Ob, cex: dict) -> Path:
     REPLAYS.mkdir(exist_ok=True)
     h = hashlib.sha256(repr(sorted(cex.get('args', {}).items(), key=repr)).encode()).hexdigest()[:10]
     p = REPLAYS / f'{prop}_{ob.id}_{h}.json'
+    if ob.engine != 'crosshair':
+        p.write_text(json.dumps({'property': prop, 'obligation': ob.id, 'engine': ob.engine, 'ob_module': ob.module, 'ob_func': ob.func, 'env': ob.env,
+                                 'model': cex, 'detail': cex.get('detail', ''), 'how': 'the obligation is re-run: it re-derives the encoding from the current source, '
+                                 'asks the solver again and replays the model on the real code'}, indent=1, default=repr))
+        return p
     p.write_text(json.dumps({'property': prop, 'obligation': ob.id, 'module': cex.get('module'), 'func': cex.get('func'),
                              'args': repr(cex.get('args')), 'call': cex.get('call'), 'detail': cex.get('detail', '')}, indent=1))
     return p
